@@ -146,9 +146,9 @@ var c19ShapeRep1 = c19Shape[c19Rep1Any, c19Rep1Raw]{
 	schema: func(v parquet.Node) *parquet.Schema {
 		return parquet.NewSchema("table", parquet.Group{"id": parquet.Int(32), "items": parquet.Repeated(parquet.Group{"v": v})})
 	},
-	mk: func(id int32, o c19Occ[any]) c19Rep1Any { return c19Rep1Any{ID: id, Items: c19ItemsAny(o[0])} },
-	anyOf: func(a c19Rep1Any) c19Occ[any] { return c19Occ[any]{c19AnyOfItems(a.Items)} },
-	rawOf: func(a c19Rep1Raw) c19Occ[c19Raw] { return c19Occ[c19Raw]{c19RawOfItems(a.Items)} },
+	mk:     func(id int32, o c19Occ[any]) c19Rep1Any { return c19Rep1Any{ID: id, Items: c19ItemsAny(o[0])} },
+	anyOf:  func(a c19Rep1Any) c19Occ[any] { return c19Occ[any]{c19AnyOfItems(a.Items)} },
+	rawOf:  func(a c19Rep1Raw) c19Occ[c19Raw] { return c19Occ[c19Raw]{c19RawOfItems(a.Items)} },
 	occGen: func(r *rand.Rand, e bool) []int { return c19GroupSizes(r, 1, false, e) },
 }
 
@@ -390,8 +390,11 @@ func c19NestedCase[A, R any](ctx *core.Ctx, r *rand.Rand, sh c19Shape[A, R], p *
 		wantNative := make([][]string, nrows) // Go image text per occurrence
 		var canon strings.Builder
 		canon.WriteString(sh.name + " " + stxt + " " + wp.name)
+		var evs [][]c19Ev       // per row: the Dremel events of the variant subtree
+		var occNodes []*c19Node // the occurrences, in order
 		for i := range rows {
 			sizes := sh.occGen(r, empties)
+			evs = append(evs, c19AncestorEvents(sh.name, sizes))
 			occ := c19Occ[any]{}
 			first := true
 			for _, k := range sizes {
@@ -404,6 +407,7 @@ func c19NestedCase[A, R any](ctx *core.Ctx, r *rand.Rand, sh c19Shape[A, R], p *
 						n = c19ShredValue(r, s, 0, wp.native)
 					}
 					first = false
+					occNodes = append(occNodes, n)
 					want[i] = append(want[i], n.SortedString())
 					var sb strings.Builder
 					n.nativeText(&sb)
@@ -454,89 +458,97 @@ func c19NestedCase[A, R any](ctx *core.Ctx, r *rand.Rand, sh c19Shape[A, R], p *
 			fail("write-fails "+sigw, "writing a variant column below "+sh.name+" ancestors fails: "+err.Error(), detail(nil))
 			continue
 		}
-		for _, rp := range []string{"raw-direct", "native-direct", "convert", "legacy-unshredded"} {
-			sig := wp.name + "->" + rp + " under=" + sh.name + " schema=" + s.kind
-			var gotRaw []c19Occ[c19Raw]
-			var gotAny []c19Occ[any]
-			var err error
-			switch rp {
-			case "raw-direct":
-				var rs []R
-				rs, err = c19ReadDirectOf[R](data, schema, nrows)
-				for _, x := range rs {
-					gotRaw = append(gotRaw, sh.rawOf(x))
-				}
-			case "native-direct":
-				var rs []A
-				rs, err = c19ReadDirectOf[A](data, schema, nrows)
-				for _, x := range rs {
-					gotAny = append(gotAny, sh.anyOf(x))
-				}
-			case "convert":
-				var rs []R
-				rs, err = c19ReadConvertOf[R](data)
-				for _, x := range rs {
-					gotRaw = append(gotRaw, sh.rawOf(x))
-				}
-			case "legacy-unshredded":
-				var rs []R
-				rs, err = c19ReadLegacyOf[R](data, readSchema, nrows)
-				for _, x := range rs {
-					gotRaw = append(gotRaw, sh.rawOf(x))
-				}
+		c19NestedReadCheck(ctx, sh, data, schema, readSchema, nrows, want, wantNative, wantShape, wp.name, s.kind, fail, detail)
+		c19NestedLevels(ctx, p, sh.name, s, data, wp.name, evs, occNodes, detail)
+	}
+}
+
+// c19NestedReadCheck: the four read paths over a file holding variant occurrences below the ancestors of
+// shape sh; every occurrence read equals the occurrence written and the grouping is preserved.
+func c19NestedReadCheck[A, R any](ctx *core.Ctx, sh c19Shape[A, R], data []byte, schema, readSchema *parquet.Schema, nrows int,
+	want, wantNative [][]string, wantShape []string, wname, skind string,
+	fail func(key, what string, d map[string]any), detail func(map[string]any) map[string]any) {
+	for _, rp := range []string{"raw-direct", "native-direct", "convert", "legacy-unshredded"} {
+		sig := wname + "->" + rp + " under=" + sh.name + " schema=" + skind
+		var gotRaw []c19Occ[c19Raw]
+		var gotAny []c19Occ[any]
+		var err error
+		switch rp {
+		case "raw-direct":
+			var rs []R
+			rs, err = c19ReadDirectOf[R](data, schema, nrows)
+			for _, x := range rs {
+				gotRaw = append(gotRaw, sh.rawOf(x))
 			}
-			ctx.Hist("shred.nested.read", rp)
-			if err != nil {
-				fail("read-fails "+sig, "reading the variant column back fails: "+err.Error(), detail(map[string]any{"read": rp}))
-				continue
+		case "native-direct":
+			var rs []A
+			rs, err = c19ReadDirectOf[A](data, schema, nrows)
+			for _, x := range rs {
+				gotAny = append(gotAny, sh.anyOf(x))
 			}
-			if len(gotRaw)+len(gotAny) != nrows {
-				fail("row-count "+sig, fmt.Sprintf("read %d rows, wrote %d", len(gotRaw)+len(gotAny), nrows), detail(map[string]any{"read": rp}))
-				continue
+		case "convert":
+			var rs []R
+			rs, err = c19ReadConvertOf[R](data)
+			for _, x := range rs {
+				gotRaw = append(gotRaw, sh.rawOf(x))
 			}
-			for i := 0; i < nrows; i++ {
-				var shape string
-				var texts []string
-				if gotRaw != nil {
-					shape = c19OccShape(gotRaw[i])
-					for _, g := range gotRaw[i] {
-						for _, raw := range g {
-							v, err := c19Decode(raw.Metadata, raw.Value)
-							if err != nil {
-								texts = append(texts, "undecodable: "+err.Error())
-							} else {
-								texts = append(texts, c19VText(v, true))
-							}
+		case "legacy-unshredded":
+			var rs []R
+			rs, err = c19ReadLegacyOf[R](data, readSchema, nrows)
+			for _, x := range rs {
+				gotRaw = append(gotRaw, sh.rawOf(x))
+			}
+		}
+		ctx.Hist("shred.nested.read", rp)
+		if err != nil {
+			fail("read-fails "+sig, "reading the variant column back fails: "+err.Error(), detail(map[string]any{"read": rp}))
+			continue
+		}
+		if len(gotRaw)+len(gotAny) != nrows {
+			fail("row-count "+sig, fmt.Sprintf("read %d rows, wrote %d", len(gotRaw)+len(gotAny), nrows), detail(map[string]any{"read": rp}))
+			continue
+		}
+		for i := 0; i < nrows; i++ {
+			var shape string
+			var texts []string
+			if gotRaw != nil {
+				shape = c19OccShape(gotRaw[i])
+				for _, g := range gotRaw[i] {
+					for _, raw := range g {
+						v, err := c19Decode(raw.Metadata, raw.Value)
+						if err != nil {
+							texts = append(texts, "undecodable: "+err.Error())
+						} else {
+							texts = append(texts, c19VText(v, true))
 						}
 					}
-				} else {
-					shape = c19OccShape(gotAny[i])
-					for _, g := range gotAny[i] {
-						for _, x := range g {
-							var sb strings.Builder
-							c19GoText(x, &sb)
-							texts = append(texts, sb.String())
-						}
+				}
+			} else {
+				shape = c19OccShape(gotAny[i])
+				for _, g := range gotAny[i] {
+					for _, x := range g {
+						var sb strings.Builder
+						c19GoText(x, &sb)
+						texts = append(texts, sb.String())
 					}
 				}
-				exp := want[i]
-				if gotRaw == nil {
-					exp = wantNative[i]
-				}
-				if shape != wantShape[i] {
-					fail("occurrence-grouping-changed "+sig, "the variant occurrences of a row are grouped differently after the round trip",
-						detail(map[string]any{"read": rp, "row": i, "got_shape": shape, "want_shape": wantShape[i], "got": texts}))
-					break
-				}
-				if strings.Join(texts, " ") != strings.Join(exp, " ") {
-					fail("value-changed "+sig, "a variant value below "+sh.name+" ancestors reads back changed",
-						detail(map[string]any{"read": rp, "row": i, "got": texts, "want": exp}))
-					break
-				}
+			}
+			exp := want[i]
+			if gotRaw == nil {
+				exp = wantNative[i]
+			}
+			if shape != wantShape[i] {
+				fail("occurrence-grouping-changed "+sig, "the variant occurrences of a row are grouped differently after the round trip",
+					detail(map[string]any{"read": rp, "row": i, "got_shape": shape, "want_shape": wantShape[i], "got": texts}))
+				break
+			}
+			if strings.Join(texts, " ") != strings.Join(exp, " ") {
+				fail("value-changed "+sig, "a variant value below "+sh.name+" ancestors reads back changed",
+					detail(map[string]any{"read": rp, "row": i, "got": texts, "want": exp}))
+				break
 			}
 		}
 	}
-	_ = p
 }
 
 func c19NestedCases(ctx *core.Ctx, r *rand.Rand, p *c19Pending) {
